@@ -194,6 +194,43 @@ class LayerFn:
             outside(fn.body)
         else:
             outside(fn.body)
+        # lines that consist of NOP / RESUME only (`try:` headers, `pass`, ...) cannot raise: no crash point.
+        # (CPython does not even put a `try:` header into the protected range of the enclosing try.)
+        import dis
+        ops = {}
+        for ins in dis.get_instructions(self.code):
+            if ins.positions and ins.positions.lineno:
+                ops.setdefault(ins.positions.lineno, set()).add(ins.opname)
+        # ... and so are lines that only move constants / locals around or return (`return 0`, `x = "utf-8"`,
+        # `continue`): nothing the input could make fail, and CPython keeps a `return` outside the protected range
+        inert = {"NOP", "RESUME", "RETURN_GENERATOR", "POP_TOP", "LOAD_CONST", "RETURN_CONST", "RETURN_VALUE",
+                 "LOAD_FAST", "STORE_FAST", "JUMP_FORWARD", "JUMP_BACKWARD", "JUMP_BACKWARD_NO_INTERRUPT", "COPY",
+                 "SWAP", "PUSH_NULL", "POP_JUMP_IF_FALSE", "POP_JUMP_IF_TRUE", "POP_JUMP_IF_NONE",
+                 "POP_JUMP_IF_NOT_NONE", "LOAD_FAST_AND_CLEAR", "BUILD_LIST", "BUILD_TUPLE", "IS_OP", "TO_BOOL"}
+        self.noop = {ln for ln, o in ops.items() if o <= inert}
+        # cli.main: once a statement has written to sys.stdout, the statements after it in the same block can only
+        # fail because of the output stream itself (not because of the input file): no crash points
+        if self.t == "Cli" and self.wrapper is not None:
+            def writes_stdout(st):
+                for n in ast.walk(st):
+                    if isinstance(n, ast.Attribute) and n.attr == "stdout" and isinstance(n.value, ast.Name) \
+                            and n.value.id == "sys":
+                        return True
+                return False
+
+            def blocks(stmts):
+                written = False
+                for st in stmts:
+                    if written:
+                        for ln in self._lines(st):
+                            self.noop.add(ln)
+                    elif not isinstance(st, (ast.If, ast.For, ast.While, ast.With, ast.Try)) and writes_stdout(st):
+                        written = True
+                    for fld in ("body", "orelse", "finalbody"):
+                        sub = getattr(st, fld, None)
+                        if isinstance(sub, list) and sub and isinstance(sub[0], ast.stmt):
+                            blocks(sub)
+            blocks(self.wrapper.body)
         # the `def` line(s) themselves
         for ln in range(self.first, self._abs(fn.body[0].lineno)):
             self.stage.setdefault(ln, "pro")
